@@ -328,7 +328,42 @@ func c11Exchanges(p *core.Prog, r *core.Report) {
 			continue
 		}
 		ok := len(core.CallsIn(f, "messageExchange.shutdown")) > 0
-		r.Check(ok, "C11-R1", fname(f), m[1]+" reaches mex.shutdown()", p.Pos(f.Pos()), "the call object's "+m[1]+" shuts the exchange down", "the call object no longer shuts its exchange down in "+m[1])
+		how := "the call object no longer shuts its exchange down in " + m[1]
+		if ok {
+			// on every path, except where the object's err field is already
+			// set (an earlier failed() has shut the exchange down)
+			isErrFld := func(v ssa.Value) bool {
+				fl := core.LoadedField(v)
+				return fl != nil && fl.Name() == "err"
+			}
+			res := core.ReachAvoiding(f, nil, core.IsReturn, func(i ssa.Instruction) bool {
+				_, is := core.IsCall(i, "messageExchange.shutdown")
+				return is
+			}, func(from, to *ssa.BasicBlock) bool {
+				// the edge on which the err field is known non-nil
+				ifi, isIf := from.Instrs[len(from.Instrs)-1].(*ssa.If)
+				if !isIf || from.Succs[0] == from.Succs[1] {
+					return false
+				}
+				bo, isBO := ifi.Cond.(*ssa.BinOp)
+				if !isBO || (bo.Op != token.EQL && bo.Op != token.NEQ) {
+					return false
+				}
+				isNil := func(v ssa.Value) bool { c, isC := v.(*ssa.Const); return isC && c.IsNil() }
+				if !(isErrFld(bo.X) && isNil(bo.Y)) && !(isErrFld(bo.Y) && isNil(bo.X)) {
+					return false
+				}
+				if bo.Op == token.EQL {
+					return to == from.Succs[1]
+				}
+				return to == from.Succs[0]
+			})
+			if res.Found {
+				ok = false
+				how = m[1] + " can return without shutting the exchange down although no earlier failure did: " + p.TrailString(res)
+			}
+		}
+		r.Check(ok, "C11-R1", fname(f), m[1]+" reaches mex.shutdown()", p.Pos(f.Pos()), "every path shuts the exchange down unless the object's err is already set", how)
 	}
 }
 
@@ -466,7 +501,7 @@ func c11Dropped(p *core.Prog, r *core.Report) {
 		r.Errorf("expected OnCloseStateChange to be bound for both directions, found %d bindings", n)
 	}
 	if f := mustFunc(p, r, "", "Channel", "connectionCloseStateChange"); f != nil {
-		rm := len(core.CallsIn(f, "Channel.removeClosedConn")) == 1
+		rm := len(core.CallsIn(f, "Channel.removeClosedConn")) == 1 && onEveryPath(f, "Channel.removeClosedConn")
 		r.Check(rm, "C11-R3", fname(f), "removeClosedConn(c)", p.Pos(f.Pos()), "closed connections leave the channel's table", "closed connections are not removed from the channel")
 		// peers for both host:ports
 		keys := map[string]bool{}
